@@ -706,7 +706,11 @@ func RunPipe(r *Run) {
 		kind := c.Intn("policy", polCount)
 		pol := newPipePolicy(c, kind, len(doc)/300+8)
 		r.stat("policy_"+polNames[kind], 1)
-		r.trace("schedule %d policy %s", k, polNames[kind])
+		// the property quantifies over GOMAXPROCS 1..16: the schedule is ours, but the library may look at the setting
+		procs := []int{1, 2, 4, 16}[c.Intn("gomaxprocs", 4)]
+		oldProcs := runtime.GOMAXPROCS(procs)
+		defer runtime.GOMAXPROCS(oldProcs)
+		r.trace("schedule %d policy %s GOMAXPROCS %d", k, polNames[kind], procs)
 		var after func(i int, o parseOutcome)
 		if k == 0 {
 			after = func(i int, o parseOutcome) {
@@ -815,7 +819,7 @@ func RunPipeRace(r *Run) {
 	c := r.C
 	kernelSwitching = false
 	defer func() { kernelSwitching = true }()
-	procs := []int{2, 3, 4, 8, 16}[c.Intn("gomaxprocs", 5)]
+	procs := []int{1, 2, 3, 4, 8, 16}[c.Intn("gomaxprocs", 6)]
 	old := runtime.GOMAXPROCS(procs)
 	defer runtime.GOMAXPROCS(old)
 	var prev *simdjson.ParsedJson
